@@ -274,7 +274,7 @@ class Evaluator:
             return self.mk_choice(v.args[0], v.args[1], [self.mk_proj(a, i, n) for a in v.args[2]])
         if k == "phi":
             return self.mk_phi([self.mk_proj(a, i, n) for a in v.args[0]])
-        if k in ("batched", "elem", "leaf") and v.args[0].kind in ("tuple", "list", "choice"):
+        if k in ("batched", "elem", "leaf"):
             return self.wrap(k, self.mk_proj(v.args[0], i, n))
         if k == "loop":
             return mk("loop", self.mk_proj(v.args[0], i, n), self.mk_proj(v.args[1], i, n))
@@ -557,7 +557,15 @@ class Evaluator:
                 if i == len(vals) - 1:
                     out.append(v)
                 continue
-            definite_true = v.kind in ("construct", "new", "fn", "cls")
+            definite_true = v.kind in ("construct", "new", "fn", "cls") or (
+                v.kind in ("dict", "tuple", "list") and len(v.args[0]) > 0 and not any(x.kind == "star" for x in v.args[0]))
+            if v.kind in ("dict", "tuple", "list") and len(v.args[0]) == 0:
+                # definitely falsy
+                if op == "and":
+                    out.append(v)
+                    break
+                if i < len(vals) - 1:
+                    continue
             if definite_true and op == "or":
                 out.append(v)
                 break
